@@ -38,8 +38,11 @@ def run_actnorm(ck, drv, ops, dims, seed, mm):
     batches = []
     impl_rows = []
     first_train_fwd = None
+    import random as _random
+    rr = _random.Random("%s/%s/%s" % (seed, dims, ops))
+    hw = rr.choice([(2, 2), (1, 3), (2, 3)])         # image size of this history; batch sizes vary per step, down to ONE image
     for k, op in enumerate(ops):
-        shape = [4, C] if dims == 2 else [3, C, 2, 2]
+        shape = [rr.choice([2, 3, 4, 7]), C] if dims == 2 else [rr.choice([1, 1, 2, 3]), C, hw[0], hw[1]]
         x = (torch.randn(shape, generator=g, dtype=torch.float64) * 2.0 + 0.7)
         row = {"kind": 0, "y": None, "lad": None}
         before = (bool(t.initialized), t.log_scale.detach().clone(), t.shift.detach().clone())
@@ -123,7 +126,7 @@ def run_actnorm(ck, drv, ops, dims, seed, mm):
     for k, op in enumerate(ops):
         row, after, _ = impl_rows[k]
         if row["lad"] is not None:
-            npos = 1 if dims == 2 else 4
+            npos = 1 if dims == 2 else hw[0] * hw[1]
             expect = (1 if op == FWD else -1) * npos * float(after[1].sum())
             if not close(float(row["lad"][0]), expect, 1e-9):
                 mm.append({"layer": "ActNorm", "dims": dims, "what": "log-det aggregation", "impl": float(row["lad"][0]), "model": expect})
@@ -139,8 +142,10 @@ def run_batchnorm(ck, drv, ops, seed, mm):
         t.unconstrained_weight.copy_(torch.tensor([0.3, -0.7], dtype=torch.float64))
         t.bias.copy_(torch.tensor([0.2, -1.1], dtype=torch.float64))
     batches, rows = [], []
+    import random as _random
+    rr = _random.Random("%s/bn/%s" % (seed, ops))
     for k, op in enumerate(ops):
-        x = torch.randn([5, C], generator=g, dtype=torch.float64) * 1.5 + 0.3
+        x = torch.randn([rr.choice([2, 3, 5, 8]), C], generator=g, dtype=torch.float64) * 1.5 + 0.3
         row = {"kind": 0, "y": None, "lad": None}
         before = (t.running_mean.clone(), t.running_var.clone())
         training_before = t.training
@@ -225,7 +230,7 @@ def run_batchnorm(ck, drv, ops, seed, mm):
 def run(tier, seed):
     ck = Check("C14", tier, seed, areas=["norm"], gen_groups=["Norm"])
     ck.rule = ("histories over {train(), eval(), forward(batch), inverse(batch), save+load into a fresh instance} with "
-               "fresh random batches, run in lock-step on ActNorm (2-D and 4-D) and BatchNorm and on the extracted model "
+               "fresh random batches of varying size (2-7 rows; 1-3 images of 2x2, 1x3 or 2x3 pixels), run in lock-step on ActNorm (2-D and 4-D) and BatchNorm and on the extracted model "
                "per feature/channel; non-trivial = at least one forward after the initialising step; distinct by "
                "(layer, dims, op sequence)")
     ck.assumptions = ["a freshly constructed instance is in training mode (torch default)",
